@@ -38,6 +38,10 @@ type Global struct {
 }
 
 func fnID(fn *ssa.Function) string {
+	if o := fn.Origin(); o != nil && o != fn {
+		// an instance of a generic function is named (and specified) as its generic origin
+		return fnID(o)
+	}
 	if fn.Pkg != nil {
 		return fn.Pkg.Pkg.Path() + "." + fn.RelString(fn.Pkg.Pkg)
 	}
